@@ -8,7 +8,8 @@ PROOF_FILE = "C12"
 LEVEL = "proof"
 RULE = ("lists of distinct version records of one package (valid, prerelease, tagged, equal-but-differently-spelled; for npm "
         "also unparsable strings) for npm, Maven and PyPI, each under 5 orders of the list, observed at SortVersions, "
-        "MatchRequirement and LocalClient.MatchingVersions; a list is non-trivial when it has at least three versions of "
+        "MatchRequirement and LocalClient.MatchingVersions (there: the same requirements asked before and after replacements "
+        "that move the latest/next tags or change Blocked, and after new versions); a list is non-trivial when it has at least three versions of "
         "which at least one matches the requirement and one does not")
 TRUSTED = [
     "Coq 8.16.1 kernel; vm_compute for the refuted witnesses",
@@ -35,9 +36,10 @@ MANIFEST = dict(
           "oracle. Theorems for all lists and requirements: the result holds exactly the satisfying versions (npm non-range: "
           "the first version in npm order whose string or tag equals the requirement); npm results are ascending by semver then "
           "spelling, unparsable last, the latest-tagged version repositioned; npm results are invariant under permutation of "
-          "the list (unique sorted permutation of a strict total order); Maven/PyPI invariance at LocalClient.MatchingVersions "
-          "under the no-equal-distinct side condition, refuted without it and refuted at raw MatchRequirement (F-C12-1), "
-          "latest detection by substring refuted against the tag reading (F-C12-2). Tied to the code by differential "
+          "the list (unique sorted permutation of a strict total order); for the code as repaired in the tree (tie-break, sorted "
+          "copy, exact latest tag: 0c8718f, 3ff1c70, ffab6c8) permutation invariance holds with no side condition "
+          "(C12_perm_repaired); the old variants are refuted by their witnesses (F-C12-1, F-C12-1b, F-C12-2, all fixed) and the "
+          "variant tied to the tree is detected on every run by replaying them. Tied to the code by differential "
           "execution and by direct oracles over 5 orders of each list."),
     note=("Trusted: Coq 8.16.1 kernel (+vm_compute), translator gotables, extraction (ExtrOcamlBasic only) and driver.ml, the "
           "Go harness and python generators/oracles. The Gallina model is hand-written and validated against the "
@@ -226,6 +228,86 @@ def check_matchreq(ctx, s, req, recs, tab, perms, outs):
             ctx.violation("MatchRequirement (npm): result depends on the order of the input list", payload, observed=sx(results))
 
 
+def client_phases(rng, s, recs):
+    """what follows the first insertion of recs: queries, replacements, queries, ... (ops of implrun/client.go)"""
+    strs = [r[0] for r in recs]
+    reqs = [gen_req(rng, s, recs), gen_req(rng, s, recs)]
+    if s == NPM:
+        reqs += [b"*", b"latest", b"next"]
+    elif s == MAVEN:
+        reqs += [b"[0,)"]
+    else:
+        reqs += [b">=0"]
+    if strs:
+        reqs.append(rng.choice(strs))
+    reqs = list(dict.fromkeys(reqs))
+    ask = [[2, s, b"p"]] + [[4, s, b"p", REQUIREMENT, rq] for rq in reqs]
+    tail = list(ask)
+    live = list(strs)
+    for _ in range(rng.choice([1, 2, 2, 3])):
+        for _ in range(rng.randrange(1, 4)):
+            if live and rng.random() < 0.8:
+                v = rng.choice(live)                    # replacement: same key, other attributes
+            else:
+                v = rand_version(rng, s)                # a new version
+                if v in live:
+                    continue
+                live.append(v)
+            attrs = []
+            q = rng.random()
+            if q < 0.5:
+                attrs.append([cc.V_TAGS, rng.choice([b"latest", b"next", b"latest,next", b"", b"beta"])])
+            if rng.random() < 0.4:
+                attrs.append([cc.V_BLOCKED, b""])
+            if rng.random() < 0.15:
+                attrs.append([cc.V_REGISTRIES, rng.choice([b"r1", b"r2"])])
+            tail.append([0, s, b"p", CONCRETE, v, attrs, []])
+        tail += ask
+    return tail, reqs
+
+
+def check_client(tab, s, ops, obs):
+    """every Versions / MatchingVersions answer of the history against the versions live at that
+    moment.  Returns None or (op index, what, observed, required, known finding id or None)."""
+    store = {}
+    oi = 0
+    for n, o in enumerate(ops):
+        if o[0] == 0:
+            store[o[4]] = [o[4], o[3], cc.attrs_dump(o[5])]
+            continue
+        got = obs[oi]
+        oi += 1
+        if not store:
+            if got != [b"notfound"]:
+                return n, "LocalClient: a package never added must be not found", got, [b"notfound"], None
+            continue
+        if got[0] != b"ok":
+            return n, "LocalClient: a known package is reported as not found", got, [b"ok"], None
+        live = [store[k] for k in sorted(store)]
+        if o[0] == 2:
+            if s == NPM:
+                want = cc.npm_order(tab, live)
+                if got[1] != want:
+                    fid = "F-C12-2" if got[1] == cc.npm_order(tab, live, exact_tag=False) else None
+                    return n, "LocalClient.Versions (npm): not the live versions in npm order", got[1], want, fid
+            elif sorted(map(repr, got[1])) != sorted(map(repr, live)) or not cc.ascending(tab, s, got[1]):
+                return n, "LocalClient.Versions: not the live versions in ascending order", got[1], live, None
+        else:
+            rq = o[4]
+            if s == NPM:
+                want = cc.expected_matches(tab, s, rq, cc.npm_order(tab, live))
+                if got[1] != want:
+                    fid = "F-C12-2" if got[1] == cc.expected_matches(tab, s, rq, cc.npm_order(tab, live, exact_tag=False)) else None
+                    return n, ("LocalClient.MatchingVersions (npm): not MatchRequirement over the versions live at that moment "
+                               "(exactly the satisfying versions, with their current attributes, in npm order)"), got[1], want, fid
+            else:
+                want = [r for r in live if cc.satisfies(tab, s, rq, r)]
+                if sorted(map(repr, got[1])) != sorted(map(repr, want)) or not cc.ascending(tab, s, got[1]):
+                    return n, ("LocalClient.MatchingVersions: not MatchRequirement over the versions live at that moment "
+                               "(exactly the satisfying versions, with their current attributes, ascending)"), got[1], want, None
+    return None
+
+
 def run(ctx):
     rng = ctx.rng
     variant = cc.detect_variant(ctx)
@@ -285,76 +367,67 @@ def run(ctx):
         if len(ctx.samples) < 3 and len(recs) >= 3 and 0 < nm < len(recs):
             ctx.sample({"kind": "matchreq", "system": s, "requirement": sx(req), "versions": sx(recs)[:300], "impl": outs[0][:300]})
 
-    # ---------- LocalClient.MatchingVersions: insertion order must not matter ----------
+    # ---------- LocalClient.MatchingVersions ----------
+    # A history: the versions of a package added in some order; the same requirements (a range, the
+    # match-all range, the tags latest and next, an exact version string) asked; then replacements
+    # (the same keys added again with the latest/next tags moved to other versions, Blocked set or
+    # cleared) and sometimes new versions; the same requirements asked again; a second round.  Every
+    # answer must be MatchRequirement over the versions live at that moment, and the answers must
+    # not depend on the order of the first insertion (5 orders).
     nh = ctx.scale(1000, 20000)
-    lists = []
+    hists = []
     for i in range(nh):
         s = cc.SYSTEMS[i % 3]
         recs = gen_list(rng, s)
-        reqs = [gen_req(rng, s, recs) for _ in range(2)]
-        lists.append((s, reqs, recs, shuffles(rng, len(recs))))
-    tabs = cc.request_tables(ctx, [{s: ([r[0] for r in recs], reqs)} for s, reqs, recs, _ in lists])
+        tail, reqs = client_phases(rng, s, recs)
+        hists.append((s, reqs, recs, tail, shuffles(rng, len(recs))))
+    tabs = cc.request_tables(ctx, [{s: ([r[0] for r in recs] + [o[4] for o in tail if o[0] == 0], reqs)}
+                                   for s, reqs, recs, tail, _ in hists])
     cases = []
-    for (s, reqs, recs, perms), t in zip(lists, tabs):
+    for (s, reqs, recs, tail, perms), t in zip(hists, tabs):
         for p in perms:
-            ops = [[0, s, b"p", CONCRETE, recs[i][0], recs[i][2], []] for i in p]
-            ops += [[2, s, b"p"]] + [[4, s, b"p", REQUIREMENT, rq] for rq in reqs] + [[2, s, b"p"]]
+            ops = [[0, s, b"p", CONCRETE, recs[i][0], recs[i][2], []] for i in p] + tail
             cases.append(sx([variant, t.parsed, ops]))
     impl, _ = ctx.correspond("client_history", cases, label="client_matching")
     k = 0
-    for (s, reqs, recs, perms), t in zip(lists, tabs):
-        outs = [parse_sx(x) for x in impl[k:k + len(perms)]]
+    for (s, reqs, recs, tail, perms), t in zip(hists, tabs):
+        lines = impl[k:k + len(perms)]
         k += len(perms)
-        d = dumped(recs)
-        strs = [r[0] for r in recs]
+        strs = [r[0] for r in recs] + [o[4] for o in tail if o[0] == 0]
         if not (s == NPM or all(t.parses(s, v) for v in strs)):
             continue
-        payload = {"system": s, "requirements": sx(reqs), "versions": sx(recs), "orders": perms,
-                   "replay_case": "client_history\t" + sx([variant, [], [[0, s, b"p", CONCRETE, r[0], r[2], []] for r in recs] +
-                                                          [[4, s, b"p", REQUIREMENT, rq] for rq in reqs]])}
-        if not recs:
-            if any(o != outs[0] for o in outs) or outs[0] != [[b"notfound"]] * 4:
-                ctx.violation("LocalClient: a package never added must be not found", payload, observed=sx(outs))
-            continue
+        ctx.count("client_matching:histories")
+        ctx.count("client_matching:replacements", sum(1 for o in tail if o[0] == 0))
+        ctx.count("client_matching:queries", sum(1 for o in tail if o[0] == 4))
+        outs = []
         bad = False
-        for o in outs:
-            if any(x[0] != b"ok" for x in o):
-                ctx.violation("LocalClient.MatchingVersions: a known package is reported as not found", payload, observed=sx(o))
-                bad = True
-                break
-            for rq, got in zip(reqs, [x[1] for x in o[1:3]]):
-                if s == NPM:
-                    want = cc.expected_matches(t, s, rq, cc.npm_order(t, d))
-                    if got != want:
-                        if got == cc.expected_matches(t, s, rq, cc.npm_order(t, d, exact_tag=False)):
-                            known(ctx, "F-C12-2", "npm match order: latest-tag repositioning applied to a version not tagged latest",
-                                  payload, sx(got), sx(want))
-                        else:
-                            ctx.violation("LocalClient.MatchingVersions (npm): not exactly the satisfying versions in npm order",
-                                          payload, observed=sx(got), required=sx(want))
-                        bad = True
-                        break
+        for p, line in zip(perms, lines):
+            ops = [[0, s, b"p", CONCRETE, recs[i][0], recs[i][2], []] for i in p] + tail
+            obs = parse_sx(line)
+            outs.append(obs)
+            r = check_client(t, s, ops, obs)
+            if r is not None:
+                n, what, got, want, fid = r
+                payload = {"system": s, "ops": sx(ops), "failing_op_index": n, "failing_op": sx(ops[n]),
+                           "replay_case": "client_history\t" + sx([variant, [], ops])}
+                if fid:
+                    known(ctx, fid, what, payload, sx(got), sx(want))
                 else:
-                    sat = [r for r in d if cc.satisfies(t, s, rq, r)]
-                    if sorted(map(repr, got)) != sorted(map(repr, sat)) or not cc.ascending(t, s, got):
-                        ctx.violation("LocalClient.MatchingVersions: not exactly the satisfying versions in ascending order",
-                                      payload, observed=sx(got), required=sx(sat))
-                        bad = True
-                        break
-            if bad:
+                    ctx.violation(what, payload, observed=sx(got), required=sx(want))
+                bad = True
                 break
         if bad:
             continue
         if any(o != outs[0] for o in outs):
+            payload = {"system": s, "versions": sx(recs), "then": sx(tail), "orders": perms}
             if s != NPM and cc.equal_distinct(t, s, strs):
                 known(ctx, "F-C12-1", "LocalClient.Versions/MatchingVersions depend on the insertion order for versions that compare "
                       "equal but are spelled differently", payload, sx(outs), None)
             else:
                 payload["comparator_laws_hold_on_list"] = cc.laws_hold(
-                    (lambda a, b: cc.npm_cmp(t, a, b)) if s == NPM else (lambda a, b: cc.gen_cmp(t, s, a, b)), strs)
+                    (lambda a, b: cc.npm_cmp(t, a, b)) if s == NPM else (lambda a, b: cc.gen_cmp(t, s, a, b)), sorted(set(strs)))
                 ctx.violation("LocalClient.MatchingVersions: result depends on the order in which the versions were added",
                               payload, observed=sx(outs))
-        ctx.count("client_matching:lists")
 
 
 def oracle_only(ctx):
